@@ -38,6 +38,14 @@ def check_shape(ts, what):
         raise Unsupported(f"{what}: the code after the step-6 loop was not reached")
 
 
+def prepare(raw):
+    """the transition system every rule works on: carried array elements replaced by the elements (`A == pts[k]` at step 6), then every
+    counter-only way out of a loop taken as soon as its condition is known (e7_sym.merge_exits) - the place where the source tests
+    `j < 2`, `k >= L`, `k >= j` does not matter"""
+    check_shape(raw, raw.label)
+    return Y.merge_exits(Y.drop_dead(Y.eliminate_caches(raw), with_ret=True))
+
+
 def implementations(ctx):
     """{(side, name): dict(ex, raw, norm, where, offsets)}"""
     if hasattr(ctx, "_c05impl"):
@@ -47,7 +55,7 @@ def implementations(ctx):
     ctx._c05cu = cu
     for nm in ("rainflow1", "rainflow2"):
         ex = Y.Exec(cu, nm, param_kinds=["array", "int"], label=f"C {nm}", array_len={0: 1}).run()
-        raw = Y.assign_roles(Y.build_ts(ex))
+        raw = prepare(Y.assign_roles(Y.build_ts(ex)))
         check_shape(raw, f"C {nm}")
         out[("C", nm)] = dict(ex=ex, raw=raw, where=f"{CFILE} ({nm})", offsets="os" in raw.allocs, unit=cu)
     pu = R.PyUnit(ctx.src.mod(PYFILE).tree)
@@ -55,7 +63,7 @@ def implementations(ctx):
     for nm in ("_rainflow1", "_rainflow2"):
         fn = ctx.src.func(PYFILE, nm)
         ex = Y.Exec(pu, nm, param_kinds=["array", "int"], label=f"py {nm}", array_len={0: 1}).run()
-        raw = Y.assign_roles(Y.build_ts(ex))
+        raw = prepare(Y.assign_roles(Y.build_ts(ex)))
         check_shape(raw, f"py {nm}")
         out[("py", nm)] = dict(ex=ex, raw=raw, where=fn, offsets="os" in raw.allocs, unit=pu)
     for k, d in out.items():
@@ -156,7 +164,7 @@ class RefUnit:
 
 def reference(with_offsets, astm_reference):
     ex = Y.Exec(RefUnit(astm_reference(with_offsets)), "astm_e1049", param_kinds=["array", "int"], label="ASTM E1049-85 5.4.4").run()
-    raw = Y.assign_roles(Y.build_ts(ex))
+    raw = prepare(Y.assign_roles(Y.build_ts(ex)))
     check_shape(raw, "reference")
     return dict(ex=ex, raw=raw, norm=Y.normalise(raw), where="ASTM E1049-85 5.4.4 (transcribed in verifier/c05.py)", offsets=with_offsets)
 
@@ -454,7 +462,7 @@ def r6_value_flow(ctx):
             for ix, val in t["arrays"].get("os", []):
                 ok = _sel(val, "cycle_index")
                 ctx.check(ok, f"{side} {nm} [{unit}]: offsets come from the position stack", a["where"], None if ok else Y.show(val), nontrivial=False)
-        bound(ctx, ntests >= 1 and nrows == 3, f"{side} {nm}: value-flow rule bound to {ntests} data-dependent decisions and {nrows} emission paths", a["where"])
+        bound(ctx, ntests >= 1 and nrows >= 3, f"{side} {nm}: value-flow rule bound to {ntests} data-dependent decisions and {nrows} emission paths", a["where"])
 
 
 def input_typed_arithmetic(a, input_typed):
